@@ -281,7 +281,27 @@ func (vc *VC) QuerySliced(o *Obligation, prelude string, splitAsserts []T, wantM
 		}
 		sb.WriteString("))\n")
 	}
-	return sb.String()
+	return dropUnusedSortedGhosts(sb.String())
+}
+
+// dropUnusedSortedGhosts removes declarations of ghost constants of a specification sort (e.g. BS)
+// that the query does not mention: the sort may not even be declared in this package's prelude.
+func dropUnusedSortedGhosts(q string) string {
+	if !strings.Contains(q, "(declare-const ghost.") {
+		return q
+	}
+	lines := strings.Split(q, "\n")
+	out := lines[:0]
+	for _, ln := range lines {
+		if strings.HasPrefix(ln, "(declare-const ghost.") && !strings.Contains(ln, "(_ BitVec") && !strings.HasSuffix(ln, " Bool)") {
+			name := strings.Fields(ln)[1]
+			if strings.Count(q, name) == 1 {
+				continue
+			}
+		}
+		out = append(out, ln)
+	}
+	return strings.Join(out, "\n")
 }
 
 // output names a term whose model value is reported for replay comparison.
